@@ -212,7 +212,10 @@ def model_rules(cfg, R, ob, gp, gd, declared):
         cf = mod.fn('TestDataGenerator.create_test_data')
         try:
             g = ev.instantiate(mod, 'TestDataGenerator', kwargs=kwargs)
-            ev.call(mod, 'TestDataGenerator.create_test_data', [list(zones) + ['Model/Unknown']], recv=g)
+            # the zone the library does not know stands between known ones: skipping it must not end the walk
+            names = list(zones)
+            names.insert(1, 'Model/Unknown')
+            ev.call(mod, 'TestDataGenerator.create_test_data', [names], recv=g)
             vd = ev.call(mod, 'TestDataGenerator.get_validation_data', recv=g)
         except Raised as r_:
             R.instance('R4', '%s:create_test_data' % name, cf.loc)
